@@ -4,6 +4,8 @@
 import GraphiqModel.Proofs.InverseCircuit
 import GraphiqModel.Proofs.CanonUnique
 import GraphiqModel.Proofs.CanonCheck
+import GraphiqModel.Proofs.InnerProductTotal
+import GraphiqModel.Proofs.InnerProductExec
 namespace Graphiq.C05
 open Graphiq Graphiq.PRow Graphiq.STab Graphiq.Tab
 
@@ -72,14 +74,6 @@ theorem sign_matters : ¬ (STab.zero 1).Spn (PRow.Zq 0 true) := by
   have := (key _ h).2.1
   simp [PRow.Zq] at this
 
-/-- the fidelity reported by `metric.fidelity` is always `0` or `2^{-k}` (by construction of `inner_product`) — the value set of
-    |⟨a|b⟩|² for stabilizer states -/
-theorem fidelity_value_set (a b : Tab) (r : Option Nat) (_ : STab.innerProduct a b = .ok r) :
-    r = none ∨ ∃ k, r = some k := by
-  cases r with
-  | none => exact Or.inl rfl
-  | some k => exact Or.inr ⟨k, rfl⟩
-
 /-- **Postcondition of `canonical_form`** (every n, every input tableau, no hypothesis on the rows): whenever it returns,
     the result has the reduced echelon shape `STab.Canon` (Proofs/CanonShape.lean): there are `k` and pivot columns
     `px 0 < … < px (k-1)`, `pz k < … < pz (n-1)` such that
@@ -108,10 +102,9 @@ theorem shape_checker_sound (c : STab) (h : c.isCanon = true) : STab.Canon c := 
     it never reports two equal states different).  Proved below as `canonical_form_is_normal_form`; it is pure Gaussian
     elimination and does not depend on `inverse_circuit`.
 
-    What is still **not** a theorem of this development is the second half of C05, the value of the overlap:
-    `inner_product` returns `0` if the groups contain `P` and `−P`, else `2^{-(n - dim(A ∩ B))/2}`.  That one rests on
-    `inverse_circuit` always reaching |0…0⟩, which is false on the current code (C11 `synthesis_incomplete`, D42); on the
-    inputs where the model reaches |0…0⟩ it is checked against an independent oracle on every correspondence input. -/
+    The second half of C05, the value of the overlap, is proved further below (`inner_product_zero_iff_partial`,
+    `inner_product_exponent_partial`, …) under the hypothesis that `inverse_circuit` reached |0…0⟩ on the first argument;
+    without that hypothesis it is false on the current code (C11 `synthesis_incomplete`, D42). -/
 def canonical_form_is_normal_form_statement : Prop :=
   ∀ (a b ca cb : STab), a.Good → b.Good → (a.n = b.n ∧ ∀ p, a.Spn p ↔ b.Spn p) →
     a.canonicalForm = .ok ca → b.canonicalForm = .ok cb → SameRows ca cb
@@ -134,6 +127,143 @@ theorem equality_exact (a b ca cb : STab) (ha : a.Good) (hb : b.Good)
     (h1 : a.canonicalForm = .ok ca) (h2 : b.canonicalForm = .ok cb) :
     SameRows ca cb ↔ (a.n = b.n ∧ ∀ p, a.Spn p ↔ b.Spn p) :=
   ⟨equality_sound a b ca cb ha hb h1 h2, fun hs => canonical_form_is_normal_form a b ca cb ha hb hs h1 h2⟩
+
+
+/-! ## The fidelity half: `inner_product` computes the stabilizer overlap
+
+  Specification (Proofs/InnerProductSpec.lean), for the signed groups `A`, `B` of two `n`-qubit stabilizer states |a⟩, |b⟩:
+  * `Orth A B`         — some Pauli `P` lies in `A` and `−P` lies in `B`;                          then ⟨a|b⟩ = 0;
+  * `OverlapDim A B d` — `A ∩ B` has an independent generating set of `d` elements (`|A ∩ B| = 2^d`; `d` is unique:
+                         `overlap_dim_unique`);                        then, if not `Orth A B`, |⟨a|b⟩|² = 2^{-(n-d)}.
+  Both are properties of the two groups, not of the generating sets.  The Hilbert-space reading on the right is textbook
+  mathematics (Aaronson–Gottesman 2004; Garcia–Markov–Cross 2012) and is cited, **not** proved here.
+
+  The model `STab.innerProduct a b` returns `ok none` for the value `0` and `ok (some e)` for the value `2^{-e/2}`
+  (fidelity `2^{-e}`).  Every theorem below carries the hypothesis `hzero`: the tableau `s1` that `inverse_circuit`
+  returns for the first argument is the tableau of |0…0⟩.  It cannot be dropped: `C11.synthesis_incomplete` (finding D42)
+  exhibits a state on which it fails, and `fidelity_self_statement_false` below shows that the fidelity of that state with
+  itself is then reported as 1/2.  The correspondence harness evaluates `hzero` on every input. -/
+
+/-- `x = ok v`, from a Boolean evaluation (there is no `DecidableEq (Except _ _)`) -/
+theorem ok_of_check (x : Except Err (Option Nat)) (v : Option Nat)
+    (h : (match x with | .ok r => r == v | .error _ => false) = true) : x = .ok v := by
+  cases x with
+  | error e => simp at h
+  | ok r => simp at h; rw [h]
+
+/-- full statement (kept visible, **not provable on the current code** — its siblings below are refuted by D42):
+    the reported value is 0 exactly when the groups contain a Pauli with opposite signs -/
+def inner_product_zero_iff_statement : Prop :=
+  ∀ (a b : Tab) (r : Option Nat), (STab.ofTab a).Good → (STab.ofTab b).Good → STab.innerProduct a b = .ok r →
+    (r = none ↔ Orth (STab.ofTab a) (STab.ofTab b))
+
+/-- **Zero overlap is exact** (every n, every pair of generating sets, every destabilizer half; partial: under `hzero`).
+    If the synthesis of the first state reached |0…0⟩, `inner_product` reports 0 **iff** the two signed groups contain a
+    Pauli `P` and its negative `−P` — which is when ⟨a|b⟩ = 0.
+    Missing for `inner_product_zero_iff_statement`: that `inverse_circuit` always reaches |0…0⟩, which is false (D42,
+    `C11.synthesis_incomplete`). -/
+theorem inner_product_zero_iff_partial (a b : Tab) (s1 : STab) (circ : List Gate) (r : Option Nat)
+    (ga : (STab.ofTab a).Good) (gb : (STab.ofTab b).Good)
+    (hs : (STab.ofTab a).inverseCircuit = .ok (s1, circ)) (hzero : s1.isZero = true)
+    (h : STab.innerProduct a b = .ok r) :
+    r = none ↔ Orth (STab.ofTab a) (STab.ofTab b) :=
+  innerProduct_none_iff a b s1 circ r ga gb hs hzero h
+
+/-- full statement (kept visible, **false on the current code**, see `fidelity_self_statement_false`): a non-zero value
+    `2^{-e/2}` has `e = n − dim(A ∩ B)` -/
+def inner_product_exponent_statement : Prop :=
+  ∀ (a b : Tab) (e : Nat), (STab.ofTab a).Good → (STab.ofTab b).Good → STab.innerProduct a b = .ok (some e) →
+    e ≤ a.n ∧ ¬ Orth (STab.ofTab a) (STab.ofTab b) ∧ OverlapDim (STab.ofTab a) (STab.ofTab b) (a.n - e)
+
+/-- **The non-zero overlap is exact** (every n; partial: under `hzero`).  If `inner_product` reports `2^{-e/2}` then
+    `e ≤ n`, the groups are not orthogonal, and the common subgroup `A ∩ B` has an independent generating set of exactly
+    `n − e` elements: `e = n − dim(A ∩ B)`, i.e. fidelity `2^{-(n - dim(A ∩ B))}`.  Moreover `e` is what the code counts:
+    in the canonical form `s2` of the transformed second state exactly the rows `i < e` carry an x-bit, and the `n − e`
+    x-free rows `e..n-1` all have the sign `+`.
+    Missing for `inner_product_exponent_statement`: `inverse_circuit` always reaches |0…0⟩ (false, D42). -/
+theorem inner_product_exponent_partial (a b : Tab) (s1 : STab) (circ : List Gate) (e : Nat)
+    (ga : (STab.ofTab a).Good) (gb : (STab.ofTab b).Good)
+    (hs : (STab.ofTab a).inverseCircuit = .ok (s1, circ)) (hzero : s1.isZero = true)
+    (h : STab.innerProduct a b = .ok (some e)) :
+    e ≤ a.n ∧ ¬ Orth (STab.ofTab a) (STab.ofTab b) ∧ OverlapDim (STab.ofTab a) (STab.ofTab b) (a.n - e) ∧
+    ∃ s2, (STab.ofTab (b.runCircuit circ)).canonicalForm = .ok s2 ∧
+      (∀ i, i < a.n → (((List.range a.n).any fun j => (s2.row i).x j) = true ↔ i < e)) ∧
+      (∀ i, e ≤ i → i < a.n → (s2.row i).r = false) := by
+  obtain ⟨h1, h2, h3⟩ := innerProduct_some a b s1 circ (some e) ga gb hs hzero h e rfl
+  exact ⟨h1, h2, h3, innerProduct_some_rows a b s1 circ (some e) ga gb hs hzero h e rfl⟩
+
+/-- the rank in `OverlapDim` is a property of the two groups: two independent generating sets of `A ∩ B` have the same size -/
+theorem overlap_dim_unique (A B : STab) (hg : A.Good) (hn : A.n = B.n) (d d2 : Nat)
+    (h : OverlapDim A B d) (h2 : OverlapDim A B d2) : d = d2 := overlapDim_unique A B hg hn d d2 h h2
+
+/-- full statement (kept visible, **false on the current code**): the fidelity of a state with itself is 1 -/
+def fidelity_self_statement : Prop :=
+  ∀ (a : Tab) (r : Option Nat), (STab.ofTab a).Good → STab.innerProduct a a = .ok r → r = some 0
+
+/-- **Fidelity of a state with itself is 1** (every n; partial: under `hzero`): if `inverse_circuit` returned on the
+    state and reached |0…0⟩, then `inner_product` of the state with itself returns, and returns 1.
+    Missing for `fidelity_self_statement`: `inverse_circuit` always reaches |0…0⟩ (false: `fidelity_self_statement_false`). -/
+theorem fidelity_self_partial (a : Tab) (s1 : STab) (circ : List Gate) (ga : (STab.ofTab a).Good)
+    (hs : (STab.ofTab a).inverseCircuit = .ok (s1, circ)) (hzero : s1.isZero = true) :
+    STab.innerProduct a a = .ok (some 0) :=
+  innerProduct_self a s1 circ ga hs hzero
+
+/-- **`inner_product` returns on every pair of valid states** (every n; no hypothesis on the synthesis reaching |0…0⟩):
+    for two tableaux of the same size with real commuting stabilizer halves, if `inverse_circuit` returned on the first
+    and the final assert of `canonical_form` passes on the second (its generators are independent), no internal assert of
+    `inner_product` fails — the transformed second state again has `n` independent generators and no `−I`, so the
+    elimination in `canonical_form` finds `n` pivots. -/
+theorem inner_product_returns (a b : Tab) (s1 cb : STab) (circ : List Gate) (ga : (STab.ofTab a).Good)
+    (gb : (STab.ofTab b).Good) (hn : a.n = b.n) (hs : (STab.ofTab a).inverseCircuit = .ok (s1, circ))
+    (hcb : (STab.ofTab b).canonicalForm = .ok cb) : ∃ r, STab.innerProduct a b = .ok r :=
+  innerProduct_total a b s1 cb circ ga gb hn hs hcb
+
+/-- full statement (kept visible, **false on the current code**): fidelity 1 iff same state -/
+def fidelity_one_iff_statement : Prop :=
+  ∀ (a b : Tab) (r : Option Nat), (STab.ofTab a).Good → (STab.ofTab b).Good → STab.innerProduct a b = .ok r →
+    (r = some 0 ↔ ((STab.ofTab a).n = (STab.ofTab b).n ∧ ∀ p, (STab.ofTab a).Spn p ↔ (STab.ofTab b).Spn p))
+
+/-- **Fidelity 1 exactly for equal states** (every n; partial: under `hzero`): `inner_product` reports 1 **iff** the
+    two generating sets generate the same signed group. -/
+theorem fidelity_one_iff_partial (a b : Tab) (s1 : STab) (circ : List Gate) (r : Option Nat)
+    (ga : (STab.ofTab a).Good) (gb : (STab.ofTab b).Good)
+    (hs : (STab.ofTab a).inverseCircuit = .ok (s1, circ)) (hzero : s1.isZero = true)
+    (h : STab.innerProduct a b = .ok r) :
+    r = some 0 ↔ ((STab.ofTab a).n = (STab.ofTab b).n ∧ ∀ p, (STab.ofTab a).Spn p ↔ (STab.ofTab b).Spn p) := by
+  rw [innerProduct_one_iff a b s1 circ r ga gb hs hzero h]
+  exact ⟨fun s => ⟨s.n_eq, fun p => ⟨s.sub p, s.sup p⟩⟩, fun s => ⟨s.1, fun p => (s.2 p).1, fun p => (s.2 p).2⟩⟩
+
+/-- full statement (kept visible, **false on the current code**: D42 breaks it as soon as one of the two syntheses fails) -/
+def fidelity_symmetric_statement : Prop :=
+  ∀ (a b : Tab) (rab rba : Option Nat), (STab.ofTab a).Good → (STab.ofTab b).Good →
+    STab.innerProduct a b = .ok rab → STab.innerProduct b a = .ok rba → rab = rba
+
+/-- **A zero result does not depend on the argument order** (every n; partial: when both syntheses reached |0…0⟩). -/
+theorem fidelity_symmetric_zero_partial (a b : Tab) (sa sb : STab) (ca cb : List Gate) (rab rba : Option Nat)
+    (ga : (STab.ofTab a).Good) (gb : (STab.ofTab b).Good)
+    (hsa : (STab.ofTab a).inverseCircuit = .ok (sa, ca)) (hza : sa.isZero = true)
+    (hsb : (STab.ofTab b).inverseCircuit = .ok (sb, cb)) (hzb : sb.isZero = true)
+    (hab : STab.innerProduct a b = .ok rab) (hba : STab.innerProduct b a = .ok rba) : rab = none ↔ rba = none := by
+  rw [innerProduct_none_iff a b sa ca rab ga gb hsa hza hab, innerProduct_none_iff b a sb cb rba gb ga hsb hzb hba]
+  exact orth_comm _ _
+
+/-- **The fidelity is symmetric** (every n; partial: when both syntheses reached |0…0⟩): the two argument orders report
+    the same value — `Orth` is symmetric, and the rank of `A ∩ B` is symmetric and unique. -/
+theorem fidelity_symmetric_partial (a b : Tab) (sa sb : STab) (ca cb : List Gate) (rab rba : Option Nat)
+    (ga : (STab.ofTab a).Good) (gb : (STab.ofTab b).Good)
+    (hsa : (STab.ofTab a).inverseCircuit = .ok (sa, ca)) (hza : sa.isZero = true)
+    (hsb : (STab.ofTab b).inverseCircuit = .ok (sb, cb)) (hzb : sb.isZero = true)
+    (hab : STab.innerProduct a b = .ok rab) (hba : STab.innerProduct b a = .ok rba) : rab = rba :=
+  innerProduct_symm a b sa sb ca cb rab rba ga gb hsa hza hsb hzb hab hba
+
+/-- **The executable specification is exact** (every n): the brute-force test `STab.orthB` (driver command `stab.overlap`,
+    which the correspondence harness compares with the *real* `fidelity` on every pair with n ≤ 3) decides `Orth`, and the
+    membership test behind its count `STab.commonCount` decides "this subset product of `a`'s rows lies in the group of
+    `b`" — so the predicates the fidelity theorems speak about are themselves checked against the code's values.
+    (That the count equals `2^dim(A ∩ B)` for independent generators is the textbook `|A ∩ B| = 2^dim`; not proved.) -/
+theorem overlap_spec_checker_exact (a b : STab) (ga : a.Good) (gb : b.Good) (hn : a.n = b.n) :
+    (a.orthB b = true ↔ Orth a b) ∧ ∀ ma, (a.commonB b ma = true ↔ b.Spn (mprod a.n a.row ma a.n)) :=
+  ⟨orthB_iff a b ga gb hn, commonB_iff a b gb hn⟩
 
 /-! ### Non-vacuity -/
 def bellMinus : STab :=   -- generators −XX, ZZ in the gauge (−XX·ZZ = YY, ZZ):  YY, ZZ
@@ -202,5 +332,82 @@ example : ∃ a b ca cb : STab, a.Good ∧ b.Good ∧ (a.n = b.n ∧ ∀ p, a.Sp
   have := (h.2 0 (by decide)).2.1
   revert this
   decide
+
+/-! ### Non-vacuity of the fidelity theorems -/
+
+/-- a real commuting stabilizer half, from a Boolean evaluation -/
+theorem good_of_check (t : STab)
+    (h : (List.range t.n).all (fun i => (t.row i).ip == false &&
+      (List.range t.n).all fun k => PRow.sp t.n (t.row i) (t.row k) == false) = true) : t.Good := by
+  simp only [List.all_eq_true, List.mem_range, Bool.and_eq_true, beq_iff_eq] at h
+  exact ⟨fun i hi => (h i hi).1, fun i k hi hk => (h i hi).2 k hk⟩
+
+/-- Clifford tableaux (destabilizers X_i resp. Z_i) of (XX, ZZ), (−XX, ZZ) and (Z_0, Z_1) -/
+def bellPlusTab : Tab := Tab.ofRows 2 #[PRow.Zq 0, PRow.Xq 1,
+    PRow.ofArrays #[true,true] #[false,false] false false,
+    PRow.ofArrays #[false,false] #[true,true] false false]
+def bellMinusTab : Tab := Tab.ofRows 2 #[PRow.Zq 0, PRow.Xq 1,
+    PRow.ofArrays #[true,true] #[false,false] true false,
+    PRow.ofArrays #[false,false] #[true,true] false false]
+def ket00Tab : Tab := Tab.ofRows 2 #[PRow.Xq 0, PRow.Xq 1,
+    PRow.ofArrays #[false,false] #[true,false] false false,
+    PRow.ofArrays #[false,false] #[false,true] false false]
+
+theorem inverseCircuit_ok (t : STab) (h : t.canonLoops.2 = t.n) :
+    t.inverseCircuit = .ok ((invBlocks t.canonLoops.1).t, (invBlocks t.canonLoops.1).circ) := by
+  unfold inverseCircuit; rw [canonicalForm_ok t h]
+
+/-- the hypotheses of the fidelity theorems are met by concrete pairs, with all three kinds of result:
+    Φ⁺ against Φ⁻ (orthogonal: result 0), Φ⁺ against |00⟩ (overlap 1/√2: `some 1`), Φ⁺ against itself (`some 0`);
+    the syntheses of Φ⁺ and of |00⟩ reach |0…0⟩ -/
+example : ∃ s1 circ, (STab.ofTab bellPlusTab).Good ∧ (STab.ofTab bellMinusTab).Good ∧ (STab.ofTab ket00Tab).Good ∧
+    (STab.ofTab bellPlusTab).inverseCircuit = .ok (s1, circ) ∧ s1.isZero = true ∧ 0 < circ.length ∧
+    STab.innerProduct bellPlusTab bellMinusTab = .ok none ∧
+    STab.innerProduct bellPlusTab ket00Tab = .ok (some 1) ∧
+    STab.innerProduct bellPlusTab bellPlusTab = .ok (some 0) :=
+  ⟨_, _, good_of_check _ (by decide), good_of_check _ (by decide), good_of_check _ (by decide),
+    inverseCircuit_ok _ (by decide +kernel), by decide +kernel, by decide +kernel,
+    ok_of_check _ _ (by decide +kernel), ok_of_check _ _ (by decide +kernel), ok_of_check _ _ (by decide +kernel)⟩
+
+/-- … and in the other argument order (hypotheses of `fidelity_symmetric_partial`) -/
+example : ∃ s1 circ, (STab.ofTab ket00Tab).inverseCircuit = .ok (s1, circ) ∧ s1.isZero = true ∧
+    STab.innerProduct ket00Tab bellPlusTab = .ok (some 1) :=
+  ⟨_, _, inverseCircuit_ok _ (by decide +kernel), by decide +kernel, ok_of_check _ _ (by decide +kernel)⟩
+
+/-- so the two groups of Φ⁺ and Φ⁻ do contain a Pauli with opposite signs (here `XX` and `−XX`), and those of Φ⁺ and
+    |00⟩ share a subgroup of rank 1 (generated by `ZZ`) — consequences of the theorems, not evaluations -/
+example : Orth (STab.ofTab bellPlusTab) (STab.ofTab bellMinusTab) ∧ OverlapDim (STab.ofTab bellPlusTab) (STab.ofTab ket00Tab) 1 := by
+  have hs := inverseCircuit_ok (STab.ofTab bellPlusTab) (by decide +kernel)
+  have hz : (invBlocks (STab.ofTab bellPlusTab).canonLoops.1).t.isZero = true := by decide +kernel
+  have g1 : (STab.ofTab bellPlusTab).Good := good_of_check _ (by decide)
+  have g2 : (STab.ofTab bellMinusTab).Good := good_of_check _ (by decide)
+  have g3 : (STab.ofTab ket00Tab).Good := good_of_check _ (by decide)
+  exact ⟨(inner_product_zero_iff_partial _ _ _ _ _ g1 g2 hs hz (ok_of_check _ _ (by decide +kernel))).1 rfl,
+    (inner_product_exponent_partial _ _ _ _ 1 g1 g3 hs hz (ok_of_check _ _ (by decide +kernel))).2.2.1⟩
+
+/-- the hypotheses of `inner_product_returns` (second argument: `canonical_form` returns) and of
+    `overlap_spec_checker_exact`, which here evaluates to: orthogonal, two common elements with |00⟩ -/
+example : (∃ cb, (STab.ofTab bellMinusTab).canonicalForm = .ok cb) ∧
+    (STab.ofTab bellPlusTab).orthB (STab.ofTab bellMinusTab) = true ∧
+    (STab.ofTab bellPlusTab).commonCount (STab.ofTab ket00Tab) = 2 :=
+  ⟨⟨_, canonicalForm_ok _ (by decide)⟩, by decide +kernel, by decide +kernel⟩
+
+/-- the D42 witness of `C11.synthesis_incomplete` as a Clifford tableau (the destabilizer half is not read by
+    `inner_product` on its first argument) -/
+def d42Tab : Tab := Tab.ofRows 5 #[PRow.one, PRow.one, PRow.one, PRow.one, PRow.one,
+    PRow.ofArrays #[true,false,true,true,false] #[false,false,true,false,false] true false,
+    PRow.ofArrays #[false,true,true,false,false] #[false,false,false,true,true] true false,
+    PRow.ofArrays #[false,false,false,false,true] #[false,false,true,true,false] false false,
+    PRow.ofArrays #[false,false,false,false,false] #[true,false,false,true,false] true false,
+    PRow.ofArrays #[false,false,false,false,false] #[false,true,true,true,false] false false]
+
+/-- **The hypothesis `hzero` cannot be dropped** (kernel-checked; D42): on the 5-qubit witness of
+    `C11.synthesis_incomplete` the synthesis does not reach |0…0⟩ and `inner_product` reports `2^{-1/2}` (fidelity 1/2)
+    for the state with itself.  Hence `fidelity_self_statement`, and with it `fidelity_one_iff_statement` and
+    `inner_product_exponent_statement`, are false on the current code. -/
+theorem fidelity_self_statement_false : ¬ fidelity_self_statement := by
+  intro hst
+  have := hst d42Tab (some 1) (good_of_check _ (by decide +kernel)) (ok_of_check _ _ (by decide +kernel))
+  cases this
 
 end Graphiq.C05
